@@ -45,6 +45,11 @@ structure DState where
   backedUp : List Bytes := []
   dWrites : List DeferredWrite := []
   dRemovals : List Bytes := []
+  -- ghost state (not in the code): the (file to patch, output file) pair of every section that got that far
+  sections : List (Bytes × Bytes) := []
+  -- fault schedule (C10): the `faultAt`-th file system operation of the run fails once with an I/O error
+  opCount : Nat := 0
+  faultAt : Option Nat := none
   deriving Inhabited
 
 abbrev DM := ExceptT Exn (StateM DState)
@@ -57,16 +62,22 @@ def emit (e : DEv) : DM Unit := modify fun s => { s with out := s.out ++ [e] }
 /-- perform a mutating operation: logged, and a failure is a `std::system_error` -/
 def doOp (op : FsOp) : DM Unit := do
   let s ← get
+  if s.faultAt == some s.opCount then
+    set { s with opCount := s.opCount + 1 }
+    throw Exn.systemError
   match s.fs.apply op with
-  | .ok fs' => set { s with fs := fs', trace := s.trace ++ [op] }
-  | .error _ => throw Exn.systemError
+  | .ok fs' => set { s with fs := fs', trace := s.trace ++ [op], opCount := s.opCount + 1 }
+  | .error _ => set { s with opCount := s.opCount + 1 }; throw Exn.systemError
 
 /-- same, but the listed errno is tolerated (returns false, nothing happens) -/
 def tryOp (op : FsOp) (tolerated : Errno → Bool) : DM Bool := do
   let s ← get
+  if s.faultAt == some s.opCount then
+    set { s with opCount := s.opCount + 1 }
+    throw Exn.systemError
   match s.fs.apply op with
-  | .ok fs' => set { s with fs := fs', trace := s.trace ++ [op] }; pure true
-  | .error e => if tolerated e then pure false else throw Exn.systemError
+  | .ok fs' => set { s with fs := fs', trace := s.trace ++ [op], opCount := s.opCount + 1 }; pure true
+  | .error e => set { s with opCount := s.opCount + 1 }; if tolerated e then pure false else throw Exn.systemError
 
 def fsExists (p : Bytes) : DM Bool := do let s ← get; pure (s.fs.stat (absPath s p)).isSome
 def fsIsRegular (p : Bytes) : DM Bool := do
@@ -286,6 +297,7 @@ def processSection (o : Options) (format : Format) : DM Bool := do
     emit (.failed p.hunks.length p.hunks.length true none)
     failNow; return true
   let outputFile := outputPath o patch0 fileToPatch
+  modify fun s => { s with sections := s.sections ++ [(fileToPatch, outputFile)] }
   createTemp    -- tmp_reject_file
   if (← fsExists fileToPatch) && !(← fsIsRegular fileToPatch) then
     let p ← parseBodyM shouldParseBody patch0
